@@ -248,6 +248,20 @@ theorem depth_bounded_get_text (l : Loc) : allStringsDepth l ≤ 3 ∧ getTextDe
 theorem depth_bounded_string (cfg : Cfg) (h : cfg.stringLoop = true) (t : Node) : stringDepth cfg t ≤ 1 := by
   rw [stringDepth_loop cfg h]; exact Nat.le_refl 1
 
+/-- Element classes: `Node.tag` is ANY instance of `Tag` (the library class or a user subclass installed with
+    `element_classes`), and the getter treats them alike (`isinstance(child, Tag)`: the loop goes on in the same frame)
+    — one frame whatever the classes. The bound DEPENDS on that: a getter that stays in the loop only for the exact
+    class `Tag` and asks a subclass child for ITS `.string` makes one call per level of a chain of subclass tags.
+    (The harness builds every shape also from user subclasses of BeautifulSoup/Tag/NavigableString/Comment, and from a
+    mix of library classes and subclasses.) -/
+theorem string_getter_ignores_element_classes (t : Node) (n : Nat) :
+    stringPoly (fun _ => false) t = 1 ∧ stringPoly (fun _ => true) (pureChain n) = n + 1 :=
+  ⟨stringPoly_loop t, stringPoly_pureChain n⟩
+
+example : stringPoly (fun _ => false) (pureChain 30) = 1 ∧ stringPoly (fun _ => true) (pureChain 30) = 31 := by decide
+/-- every other level a subclass: one frame per two levels -/
+example : stringPoly (fun t => sizeN t % 2 == 0) (pureChain 9) = 6 := by decide
+
 example : getTextDepth (atTop (pureChain 7)) = 5 := by decide
 example : stringDepth repaired (pureChain 7) = 1 := by decide
 
